@@ -13,6 +13,11 @@ def validate_encoded(string):
     raise gfapy.FormatError(
       "{} is not a valid GFA2 identifier\n".format(repr(string))+
       "(it contains spaces or non-printable characters)")
+  if string == "*":
+    # the placeholder stands for an absent (optional) identifier
+    raise gfapy.FormatError(
+      "'*' is not a valid GFA2 identifier\n"+
+      "(it is the placeholder of the optional identifiers)")
 
 def validate_decoded(obj):
   if isinstance(obj, gfapy.Line):
